@@ -25,6 +25,9 @@ ASSUMPTIONS = ["lists are well-formed (each size byte equals the number of value
                "a page is 'B5 count records... more msgid' as in the captured vectors of the repository's tests"]
 
 KNOWN = [int(c) for c in CapabilityId]
+# public attributes that the library documents as depending on more than one capability record (none so far: filled from
+# what the unchanged tree does, each entry justified in DESIGN section 9)
+COUPLED: set = set()
 TEMPS = int(CapabilityId.TEMPERATURES)
 
 
@@ -44,6 +47,22 @@ def sub_alphabet() -> list[bytes]:
         # the same ids again with the opposite meaning (a later record overrides an earlier one)
         r(0x0216, 0), r(0x0048, 0), r(0x0048, 1), r(0x0212, 0),
     ]
+
+
+def attr_alphabet() -> list[bytes]:
+    r = cap_record
+    out = list(sub_alphabet())
+    # operating-mode sets, asymmetric temperature ranges, power / fan / swing variants: records whose DERIVED attributes
+    # (supported modes, limits, ...) are easy to couple by mistake
+    out += [r(0x0214, v) for v in (0, 3, 4)] + [r(0x0210, v) for v in (0, 2, 3, 4, 5, 6)] + [r(0x0215, v) for v in (0, 2, 3)]
+    out += [r(TEMPS, 0x22, 0x3C, 0x22, 0x3C, 0x20, 0x3E, 1), r(TEMPS, 0x20, 0x3E, 0x22, 0x3C, 0x22, 0x3C, 0), r(TEMPS, 0x22, 0x3C, 0x1E, 0x40, 0x22, 0x3C)]
+    out += [r(0x0216, 1), r(0x021F, 1), r(0x021F, 3), r(0x0222, 1), r(0x0213, 1), r(0x0217, 1), r(0x0219, 1), r(0x022C, 1), r(0x0039, 1), r(0x0009, 1), r(0x000A, 1)]
+    seen, uniq = set(), []
+    for x in out:
+        if x not in seen:
+            seen.add(x)
+            uniq.append(x)
+    return uniq
 
 
 def frame_for(records: list[bytes], more: int = 0) -> bytes:
@@ -72,6 +91,8 @@ def shards(tier):
     out += [("long", 0, 0)]
     out += [("wire", i, 0) for i in range(n)]
     out += [("wire-long", 0, 0)]
+    out += [("unknown-runs", 0, 0)]
+    out += [("attr-pairs", i, 0) for i in range(len(attr_alphabet()))]
     return out
 
 
@@ -193,6 +214,44 @@ def run_shard(shard, tier) -> Stats:
             for k, third in enumerate(alpha):
                 if tier == "thorough" or (a + j + k) % 7 == 0:
                     check_wire(st, [first, second, third], "len3")
+    elif kind == "unknown-runs":
+        # runs of 1..14 records with ids the library does not know, in front of / between / behind known records
+        known = [alpha[0], alpha[5], alpha[8], alpha[12]]
+        for k in range(1, 15):
+            run = [cap_record(0x0226 + i, 1 + i % 3, *([7] * (i % 3))) for i in range(k)]
+            for lst in (run + known, known[:2] + run + known[2:], known + run, run + known[:1] + run):
+                prob = check_list(st, lst, f"unknown-run")
+                st.ev(("unk", k, len(lst), lst[0] == run[0]), "agree" if not prob else "differ", True)
+                if k in (5, 6, 7, 12) and lst is not None and len(lst) <= 24:
+                    check_wire(st, lst, "unknown-run")
+    elif kind == "attr-pairs":
+        # attribute-level independence: what one record contributes to the public capability attributes does not depend
+        # on a record of a different id next to it
+        aa = attr_alphabet()
+        r1 = aa[a]
+        base = wire_caps([], None)[1]
+        s1 = wire_caps([r1], None)[1]
+        for r2 in aa:
+            if r2[:2] == r1[:2]:
+                continue
+            s2 = wire_caps([r2], None)[1]
+            both = wire_caps([r1, r2], None)[1]
+            bad = []
+            for k_ in base:
+                if k_ in COUPLED:
+                    continue
+                d1, d2 = s1[k_] != base[k_], s2[k_] != base[k_]
+                want = base[k_] if not d1 and not d2 else s1[k_] if d1 and not d2 else s2[k_] if d2 and not d1 else None
+                if (d1 and d2 and s1[k_] != s2[k_]):
+                    continue
+                if want is None:
+                    want = s1[k_]
+                if both[k_] != want:
+                    bad.append(k_)
+            if bad:
+                st.violation(f"attributes of a record depend on a neighbouring record of another id: {bad[0]}",
+                             {"seam": "attr-pairs", "records": [r1.hex(), r2.hex()]}, "each record contributes independently", ",".join(bad[:5]))
+            st.ev(("attr", a, r2), "independent" if not bad else "coupled", True)
     else:
         for rot in range(0, len(alpha), 3):
             lst = [alpha[(rot + i) % len(alpha)] for i in range(12)]
@@ -204,6 +263,8 @@ def run_shard(shard, tier) -> Stats:
 def replay(case):
     st = Stats()
     recs = [bytes.fromhex(r) for r in case["records"]]
+    if case["seam"] == "attr-pairs":
+        return {k: str(wire_caps(x, None)[1]) for k, x in (("first", recs[:1]), ("second", recs[1:]), ("both", recs))}
     if case["seam"] == "parse":
         return {"problem": check_list(st, recs, "replay"), "raw": str(raw_of(recs)), "merged_singles": str(merged_singles(recs))}
     return {"differing_splits": check_wire(st, recs, "replay"), "violations": sorted(st.viol_counts)}
